@@ -48,13 +48,14 @@ pub fn kmer(seed: u64, runs: usize, maxlen: usize) {
 
 /// long sequence: positions beyond 2^16. dense: clean bases with an ambiguous byte every few thousand. Otherwise: 1500 clean
 /// bases; ambiguous bytes (with clean islands too short for a window) up to position 300 000 - hundreds of thousands of
-/// consecutive calls of the loop body without an emission; a tandem repeat of period 7 for 4500 bases (thousands of
+/// consecutive calls of the loop body without an emission; a tandem repeat of period 2 for 4500 bases (thousands of
 /// consecutive windows with one minimiser); 1500 random clean bases
 fn long_seq(rng: &mut Rng, n: usize, dense: bool) -> Vec<u8> {
     if dense {
         return (0..n).map(|x| if x % 4099 == 4098 || x == 65_537 { *rng.pick(b"N-*.") } else { *rng.pick(b"ACGTacgtUu") }).collect();
     }
-    let unit: Vec<u8> = (0..7).map(|_| *rng.pick(b"ACGT")).collect();
+    // period 2: every window of every (w, m) used here holds both rotations, so all 4500 windows share one minimiser
+    let unit: Vec<u8> = rng.pick(&[b"AC", b"AG", b"CT", b"GA", b"TC", b"CA"]).to_vec();
     let gap_end = n.saturating_sub(6000).max(1500);
     (0..n)
         .map(|x| {
@@ -63,7 +64,7 @@ fn long_seq(rng: &mut Rng, n: usize, dense: bool) -> Vec<u8> {
             } else if x < gap_end {
                 if x % 997 > 5 { *rng.pick(b"N-*.") } else { *rng.pick(b"ACGT") }
             } else if x < gap_end + 4500 {
-                unit[x % 7]
+                unit[x % 2]
             } else {
                 *rng.pick(b"ACGTacgtUu")
             }
